@@ -5,5 +5,5 @@ VARIABLES u, frags
 GenInit == u \in Rows /\ frags = [s \in Sessions |-> IF Accept(u) THEN Frag(u, s) ELSE <<>>]
 GenSpec == GenInit /\ [][UNCHANGED <<u, frags>>]_<<u, frags>>
 \* sanity of the table: every accepted row constrains at least one kind of session; no fragment is longer than a small UPDATE
-TableOK == (Accept(u) => \E s \in Sessions : frags[s] # <<>>) /\ \A s \in Sessions : Len(frags[s]) <= 32
+TableOK == (Accept(u) /\ ~Free(u) => \E s \in Sessions : frags[s] # <<>>) /\ \A s \in Sessions : Len(frags[s]) <= 32
 =============================================================================
